@@ -248,7 +248,7 @@ func verifC15RoundTrip() {
 		ts.Rate = 1e8
 		p.SetTimestamp(ts)
 	}
-	n := vRange("n", 1, vParam("maxn", 4))
+	n := vRange("n", 0, vParam("maxn", 4)) // 0: an empty payload (the packet generator sends such packets)
 	dim := int16(vRange("dim", 1, 2))
 	var err error
 	kind := vRange("kind", 0, 2)
@@ -292,19 +292,19 @@ func verifC15RoundTrip() {
 	switch kind {
 	case 0:
 		qd, ok := q.Data.([]int16)
-		vCheck(ok && len(qd) == n, "int16 payload type and length")
+		vCheck((ok && len(qd) == n) || (n == 0 && q.Data == nil), "int16 payload type and length")
 		for i := 0; i < n && ok; i++ {
 			vCheck(qd[i] == d16[i], "int16 payload sample")
 		}
 	case 1:
 		qd, ok := q.Data.([]int32)
-		vCheck(ok && len(qd) == n, "int32 payload type and length")
+		vCheck((ok && len(qd) == n) || (n == 0 && q.Data == nil), "int32 payload type and length")
 		for i := 0; i < n && ok; i++ {
 			vCheck(qd[i] == d32[i], "int32 payload sample")
 		}
 	default:
 		qd, ok := q.Data.([]int64)
-		vCheck(ok && len(qd) == n, "int64 payload type and length")
+		vCheck((ok && len(qd) == n) || (n == 0 && q.Data == nil), "int64 payload type and length")
 		for i := 0; i < n && ok; i++ {
 			vCheck(qd[i] == d64[i], "int64 payload sample")
 		}
